@@ -22,13 +22,13 @@ CLAIMED = {
          "Trusted: go/ssa dominators, natural-loop construction. Not decided: which tokens ought to be skipped (nesting counters), the '>>' split in handleParseTypeError.", "DESIGN.md §2 C10"),
  "C12": ("shape rules over the SSA of SplitRawStatements: use-set of the input string, condition classification, value identity of slice bounds and Pos/End, TKAI fact at each piece cut",
          "Decides that the splitter delegates all lexical knowledge to the lexer, propagates lexical errors, cuts pieces only at ';'/<eof> tokens with Statement == input[Pos:End] by value identity, that piece starts account for leading comments; and on the lexer side that a ';' inside a raw literal after a backslash is not a cut (C14/R7) and that comment scanning is exhaustive (C14/R8).",
-         "Trusted: go/ssa; the lexer properties C13/C14. Not decided: ordering / non-overlap arithmetic of the pieces (slices of split.go).", "DESIGN.md §2 C12"),
+         "Trusted: go/ssa; the lexer properties C13/C14. The ordering / range arithmetic of the pieces and the two slices of split.go are decided by C12/R5 (LEXBOUNDS over the contract of Lexer.NextToken). Not decided: that no piece contains a top-level semicolon beyond the cut rule (a token-sequence fact).", "DESIGN.md §2 C12"),
  "C13": ("who-may-write analysis of the cursor and token fields + relational numeric abstract interpretation of nextToken (LEXBOUNDS: linear equalities over cursor snapshots and ghost fields for the stored Space/Raw/Pos/End)",
          "Decides the tiling argument: the cursor moves only in skip/skipN; every Space and Raw stored is a slice of the input; each Space begins where the previous comment/token ended and ends where Raw begins; Pos and End are the bounds of Raw; on every return the cursor is at the last End and Pos, End, Space, Raw are stored (Space/Raw not for a <bad> token); <eof> is a fixed point, every other return advanced.",
          "Trusted: go/ssa; callees of nextToken are summarised as 'move the cursor forward' (their bounds are C03/R6). Not decided: that Space holds only whitespace and Raw exactly one token (C14).", "DESIGN.md §2 C13"),
  "C04": ("field-based value-flow (shape) analysis of the parser over go/ssa + per-allocation-site abstract evaluation of the consumer methods; residual-set dataflow for switch exhaustiveness",
          "Decides for every allocation site of every node type that SQL/Pos/End never dereference a field that may be nil at that site (helpers summarised, branches on site-constant fields pruned), that every type/constant switch whose fall-through panics covers what can flow to it, and that consumer indexing is length-guarded.",
-         "Trusted: go/ssa, VTA; the TKAI summaries used to refine nil returns of tryParse* helpers; one listed assumption (peekDelimiter's byte guard). Not decided: trees built by hand by users.", "DESIGN.md §2 C04"),
+         "Trusted: go/ssa, VTA; the TKAI summaries used to refine nil returns of tryParse* helpers; no assumptions (peekDelimiter's byte guard is decided by the byte-fact interpretation, C03/R9). Not decided: trees built by hand by users.", "DESIGN.md §2 C04"),
  "C07": ("extraction of the operator table from the parser's SSA with the token-kind abstract interpreter; comparison with a reference table; order-isomorphism check of the printer's exprPrec switch",
          "The property is about a finite table and is decided exactly: levels, token→operator constants, associativity, operand parsers, printer precedence ranks and ParenExpr preservation, for all operators.",
          "Trusted: the GoogleSQL reference table typed into the checker; TKAI guard extraction.", "DESIGN.md §2 C07"),
@@ -43,7 +43,7 @@ CLAIMED = {
          "Trusted: go/ssa def-use, VTA. Not decided: the rest of the lexer side (re-spacing never changes token boundaries).", "DESIGN.md §2 C16"),
  "C03": ("interprocedural may-escape analysis of *Error panics over go/ssa + VTA call graph (dominance of recovering defers, flag specialisation); value-flow check of every recover() use; loop-progress analysis over token-kind states; relational numeric abstract interpretation (unit-coefficient linear inequalities, context-sensitive by inlining, both noPanic modes) of the byte-level code",
          "Decides for every exported entry point that no syntax-error panic can escape, that every recover() value is re-panicked unless it is a *Error and recorded when it is, the dynamic types of the error results, progress of all 94 loops, and — for lexer.go, token/quote.go and char/ — that every index, slice, cursor assignment and error position is within bounds in every calling context (132 sites).",
-         "Trusted: go/ssa, VTA call graph resolution, standard-library callees treated as non-raising, the contract of File.Position (positions <= len(Buffer)) and of utf8.DecodeRuneInString/EncodeRune, mathematical integers. Not decided: the slices of split.go and token/file.go (contents of slices), recursion depth.", "DESIGN.md §2 C03"),
+         "Trusted: go/ssa, VTA call graph resolution, standard-library callees treated as non-raising, the contract of File.Position (positions <= len(Buffer)) and of utf8.DecodeRuneInString/EncodeRune, mathematical integers. Not decided: the line-table arithmetic of token/file.go (contents of slices), recursion depth (a 10 M-deep unary chain overflows the stack), quadratic time on deeply nested unclosed brackets.", "DESIGN.md §2 C03"),
  "C09": ("must-pass-through / dominance analysis on the SSA control-flow graph + who-may-write and call-graph reachability rules",
          "Decides the control-flow contract between Parser.errors, Bad nodes and the nil error for every entry point, every Bad* allocation site, every store to the error list and every Clone()/restore lookahead region.",
          "Trusted: go/ssa CFG and dominators, VTA call graph. The range 0 <= Pos <= End <= len(input) of the lexer's error positions is decided by the LEXBOUNDS run (C09/R5 with C03/R6). Not decided: one-error-per-Bad-node counting beyond 'each handler appends'.", "DESIGN.md §2 C09"),
